@@ -16,7 +16,7 @@ import re
 from collections import Counter, defaultdict
 
 from vf import runner
-from vf.engine import Case, Failure, h, live_first
+from vf.engine import Case, Failure, h, live_first, deviation_sets
 from vf.gen import c02 as gen
 from vf.oracle import c02_literals as lit
 from vf.project import Project
@@ -239,13 +239,12 @@ def explain(lang, slots, baits, observed, cfg):
         return [], []
     act = active_devs(slots, baits, cfg)
     best = ((), res0)
-    for r in range(1, len(act) + 1):
-        for devs in itertools.combinations(act, r):
-            res = match(slots, baits, observed, cfg, devs)
-            if not res:
-                return list(devs), []
-            if len(res) < len(best[1]):
-                best = (devs, res)
+    for devs in deviation_sets("C02", act):
+        res = match(slots, baits, observed, cfg, devs)
+        if not res:
+            return list(devs), []
+        if len(res) < len(best[1]):
+            best = (devs, res)
     return list(best[0]), best[1]
 
 
